@@ -261,7 +261,8 @@ namespace OP2Utility::Archive
 			IndexEntry indexEntry;
 
 			uint64_t fileSize = volInfo.fileStreamReaders[i]->Length();
-			if (fileSize > UINT32_MAX) {
+			// The block length field holds 31 bits and the index entry stores the size as int32_t
+			if (fileSize > INT32_MAX) {
 				throw std::runtime_error("File " + volInfo.filesToPack[i] +
 					" is too large to fit inside a volume archive. Writing volume " + volumeFilename + " aborted.");
 			}
@@ -300,7 +301,12 @@ namespace OP2Utility::Archive
 		for (std::size_t i = 1; i < volInfo.fileCount(); ++i)
 		{
 			const IndexEntry& previousIndex = volInfo.indexEntries[i - 1];
-			volInfo.indexEntries[i].dataBlockOffset = (previousIndex.dataBlockOffset + previousIndex.fileSize + 11) & ~3;
+			const uint64_t dataBlockOffset = (static_cast<uint64_t>(previousIndex.dataBlockOffset) + previousIndex.fileSize + 11) & ~static_cast<uint64_t>(3);
+			if (dataBlockOffset > UINT32_MAX) {
+				throw std::runtime_error("File " + volInfo.filesToPack[i] +
+					" would be stored beyond the 4 GiB a volume archive can address. Writing volume " + volumeFilename + " aborted.");
+			}
+			volInfo.indexEntries[i].dataBlockOffset = static_cast<uint32_t>(dataBlockOffset);
 		}
 	}
 
